@@ -396,6 +396,8 @@ class Call(object):
         self.code = code
         self.thunk = thunk
         self.baselines = baselines   # list of thunks
+        self.flt = None              # query positions: the filter, and the database it goes to
+        self.db = None
 
 
 def _ids(cursor):
@@ -431,9 +433,11 @@ class Prober(object):
         code = 'db.c.find(%r)' % (flt,)
         tag = {'tdb': '  # typed documents', 'edb': '  # empty collection'}.get(db, '')
         code += tag
-        return Call(code, lambda: _ids(getattr(self, db).c.find(copy.deepcopy(flt))),
+        call = Call(code, lambda: _ids(getattr(self, db).c.find(copy.deepcopy(flt))),
                     [('db.c.find(%r)%s' % (b, tag), (lambda b=b: _ids(getattr(self, db).c.find(
                         copy.deepcopy(b))))) for b in bases])
+        call.flt, call.db = flt, db     # the filter itself: probed again by c20_states.py
+        return call
 
     def _queryField(self, name):
         inn = in_table(self.T, 'queryField', name)
@@ -713,6 +717,8 @@ def probe_entry(prober, counters, pos, name):
         'errors': dict(errors), 'reached': counters[ANCHOR[pos]] > before,
         'probe': witness.code if witness else None,
         'baseline': [c for c, _ in witness.baselines] if witness else [],
+        # query positions: the first probing filter given to the populated collection
+        'filter': next((c.flt for c in calls if c.flt is not None and c.db != 'edb'), None),
     }
 
 
